@@ -189,8 +189,13 @@ func c01Scenario(clients []gridClient, depth int) *explore.Scenario {
 			hrr := x.Choose("srv.hrr", 2) == 1
 			// the judged connection may be one that resumes: a PSK parrot with a TLS 1.3 session cached
 			// by a first, unedited connection (the pre_shared_key binder is computed over the edited hello)
-			resumed := x.Choose("resumed", 2) == 1
-			if resumed && (!g.PSK || hrr) {
+			resumedMode := x.Choose("resumed", 3) // 1: TLS 1.3 PSK; 2: a TLS 1.2 ticket cached by a first connection (session_ticket parrots)
+			resumed := resumedMode != 0
+			if resumedMode == 1 && (!g.PSK || hrr) {
+				r.Obs = "n/a"
+				return
+			}
+			if resumedMode == 2 && hrr {
 				r.Obs = "n/a"
 				return
 			}
@@ -212,6 +217,10 @@ func c01Scenario(clients []gridClient, depth int) *explore.Scenario {
 				return
 			}
 			o := offerOf(h0)
+			if resumedMode == 2 && (h0.Find(35) == nil || !has16(o.versions, tls.VersionTLS12)) {
+				r.Obs = "n/a"
+				return
+			}
 			scfg := peer.ServerConfig()
 			if !offersCert(o, "ecdsa") {
 				scfg = peer.ServerConfig(peer.Fix().RSA)
@@ -243,7 +252,7 @@ func c01Scenario(clients []gridClient, depth int) *explore.Scenario {
 			}
 			// how the handshake is started after the edits: Handshake(), or implicitly by the first Read / Write
 			start := []string{"", "read", "write"}[x.Choose("start", 3)]
-			what := fmt.Sprintf("%s edits=%v hrr=%v resumed=%v", g.Name, names, hrr, resumed)
+			what := fmt.Sprintf("%s edits=%v hrr=%v resumed=%d", g.Name, names, hrr, resumedMode)
 			if start != "" {
 				what += " handshake-started-by=" + start
 			}
@@ -281,7 +290,11 @@ func c01Scenario(clients []gridClient, depth int) *explore.Scenario {
 			if resumed {
 				ccfg.ClientSessionCache = tls.NewLRUClientSessionCache(4)
 				ccfg.PreferSkipResumptionOnNilExtension = true // the documented knob for specs without the needed session extension (e.g. fingerprinted copies)
-				scfg.MinVersion = tls.VersionTLS13
+				if resumedMode == 1 {
+					scfg.MinVersion = tls.VersionTLS13
+				} else {
+					scfg.MaxVersion = tls.VersionTLS12
+				}
 				c0 := *ccfg
 				if w := peer.Run(&c0, g.ID, scfg, peer.Opts{Prepare: g.prepare(), Echo: true}); !w.OK() {
 					r.Obs = "first-connection-failed"
@@ -314,7 +327,7 @@ func c01Scenario(clients []gridClient, depth int) *explore.Scenario {
 								for _, ex := range uc.Extensions {
 									ts = append(ts, fmt.Sprintf("%T", ex))
 								}
-								x.State(fmt.Sprintf("%s|%v|%d|%d|%d|%x|%v", g.Name, resumed, knob, len(uc.HandshakeState.Hello.CipherSuites), len(uc.HandshakeState.Hello.SessionId), uc.HandshakeState.Hello.Random[:2], ts))
+								x.State(fmt.Sprintf("%s|%v|%d|%d|%d|%x|%v", g.Name, resumedMode, knob, len(uc.HandshakeState.Hello.CipherSuites), len(uc.HandshakeState.Hello.SessionId), uc.HandshakeState.Hello.Random[:2], ts))
 							}
 						}()
 						if err := e.apply(uc); err != nil {
@@ -425,7 +438,7 @@ func c01Scenarios(thorough bool) []*explore.Scenario {
 func init() {
 	register(&Prop{ID: "C01", Level: "model_checking", Variant: "A", Scenarios: c01Scenarios,
 		Run: func(c *explore.Check, thorough bool) {
-			c.Rule = "every non-Golang ID, randomized seeds and custom specs (+ fingerprinted copies in thorough) x every sequence of <=2 (3) documented mutators (SetClientRandom, SetSNI, CipherSuites drop/append, SessionId pattern/empty, Extensions append/remove/edit (ALPN, server_name and signature_algorithms objects edited directly), RemoveSNIExtension, an edit the marshaller must refuse, a second BuildHandshakeState) applied between BuildHandshakeState and the start of the handshake {Handshake(), first Read, first Write} x server {plain, HRR-forcing} x {fresh connection, PSK parrot resuming a cached TLS 1.3 session} x (unedited hellos) {no ECH config, Config.EncryptedClientHelloConfigList set whether or not the spec has an ECH extension}: (1) first ClientHello on the wire == Hello.Raw read at the first write, (2) the last edit of each field is visible to the strict parser, (3) after Handshake Hello.Raw == the last ClientHello sent. distinct = (client, edit sequence, server, hellos sent)"
+			c.Rule = "every non-Golang ID, randomized seeds and custom specs (+ fingerprinted copies in thorough) x every sequence of <=2 (3) documented mutators (SetClientRandom, SetSNI, CipherSuites drop/append, SessionId pattern/empty, Extensions append/remove/edit (ALPN, server_name and signature_algorithms objects edited directly), RemoveSNIExtension, an edit the marshaller must refuse, a second BuildHandshakeState) applied between BuildHandshakeState and the start of the handshake {Handshake(), first Read, first Write} x server {plain, HRR-forcing} x {fresh connection, PSK parrot resuming a cached TLS 1.3 session, session_ticket parrot offering a cached TLS 1.2 ticket} x (unedited hellos) {no ECH config, Config.EncryptedClientHelloConfigList set whether or not the spec has an ECH extension}: (1) first ClientHello on the wire == Hello.Raw read at the first write, (2) the last edit of each field is visible to the strict parser, (3) after Handshake Hello.Raw == the last ClientHello sent. distinct = (client, edit sequence, server, hellos sent)"
 			c.Assumptions = []string{"Hello.Raw 'as rebuilt at handshake start' is read by the transport's first-write callback on the handshaking goroutine"}
 			runAll(c, c01Scenarios(thorough), 0)
 			c.Gate(c.Total.Counters["hrr_completed"] > 100, "non-vacuity: %d completed HRR handshakes", c.Total.Counters["hrr_completed"])
